@@ -134,4 +134,206 @@ theorem getOp_blockcheck (s : Bytes) :
               · simp [h6]
               · simp [h6]
 
+/-! ### 2. serialisation lemmas, identifiers -/
+
+theorem wfTx_txRange (t : Tx) (h : Spec.Wire.WFTx t) : Spec.Merkle.TxRange t := by
+  obtain ⟨h1, h2, _, h4, h5, h6, h7, h8, h9, h10⟩ := h
+  refine ⟨h1, h2, h4, h5, h6, h7, ?_, h9, h10⟩
+  rcases h8 with h | h
+  · simp [h]
+  · omega
+
+theorem wfBlock_blockRange (b : Block) (h : Spec.Wire.WFBlock b) : Spec.Merkle.BlockRange b :=
+  ⟨h.1, h.2.1, fun t ht => wfTx_txRange t (h.2.2 t ht)⟩
+
+theorem ctorValid_eq_validTx (t : Tx) : Model.Merkle.ctorValid t = Spec.ValueSem.validTx t := by
+  rfl
+
+theorem merkle_getTxid_eq_valueSem (t : Tx) : Model.Merkle.getTxid t = Spec.ValueSem.txidOf t := by
+  unfold Model.Merkle.getTxid Spec.ValueSem.txidOf
+  cases hw : Model.Wire.serWitness t.wit with
+  | error e => rfl
+  | ok w =>
+    have h0 : Model.Wire.serWitness [] = .ok [] := rfl
+    simp only [bind, Except.bind, h0, ctorValid_eq_validTx]
+
+theorem merkle_getHash_eq_ident (t : Tx) : Model.Merkle.getHash t = Model.Ident.getHash t := by
+  unfold Model.Merkle.getHash Model.Ident.getHash Model.Ident.getHashWith
+  cases Model.Wire.serTx t <;> rfl
+
+/-- C02's `GetTxid` validates only `nLockTime` when it rebuilds the stripped transaction; it agrees
+    with the two others whenever the inputs would pass the constructor (always the case for an
+    immutable transaction) -/
+theorem ident_getTxid_eq_merkle (t : Tx) (h : t.vin.all Spec.ValueSem.validTxIn = true) :
+    Model.Ident.getTxid t = Model.Merkle.getTxid t := by
+  unfold Model.Ident.getTxid Model.Ident.getTxidWith Model.Ident.witNeDefault Model.Merkle.getTxid
+  cases hw : Model.Wire.serWitness t.wit with
+  | error e => rfl
+  | ok w =>
+    have h0 : Model.Wire.serWitness [] = .ok [] := rfl
+    have hv : Model.Merkle.ctorValid t = decide (t.nLockTime ≤ 0xffffffff) := by
+      rw [ctorValid_eq_validTx]; unfold Spec.ValueSem.validTx; rw [h]; simp
+    simp only [bind, Except.bind, h0, pure, Except.pure, hv]
+    by_cases hne : w = []
+    · subst hne
+      simp
+      cases Model.Wire.serTx t <;> rfl
+    · have : (w != []) = true := by simpa using hne
+      simp only [this, if_true, ne_eq, hne, not_false_eq_true]
+      by_cases hl : t.nLockTime > 0xffffffff
+      · have : ¬ t.nLockTime ≤ 0xffffffff := by omega
+        simp [hl, this, throw, throwThe, MonadExceptOf.throw]
+      · have : t.nLockTime ≤ 0xffffffff := by omega
+        simp only [hl, if_false, this, decide_true, if_true]
+        unfold Tx.strip
+        cases Model.Wire.serTx { t with wit := [] } <;> rfl
+
+theorem getHeader_eq_ident (b : Block) : Model.BlockCheck.getHeader b.hdr = Model.Ident.getHeader b := by
+  unfold Model.BlockCheck.getHeader Model.Ident.getHeader
+  by_cases h1 : b.hdr.hashPrevBlock.length ≠ 32
+  · simp [h1, throw, throwThe, MonadExceptOf.throw, bind, Except.bind]
+  · by_cases h2 : b.hdr.hashMerkleRoot.length ≠ 32
+    · simp [h1, h2, throw, throwThe, MonadExceptOf.throw, bind, Except.bind, pure, Except.pure]
+    · simp [h1, h2, bind, Except.bind, pure, Except.pure]
+
+theorem headerHash_eq (h : Header) :
+    Model.Ident.headerHash h = (Model.Wire.serHeader h).map Crypto.hash256 := by
+  unfold Model.Ident.headerHash Model.Ident.headerHashWith
+  cases Model.Wire.serHeader h <;> rfl
+
+/-! ### 5. FindAndDelete (C03's model vs C06's) -/
+
+theorem fad_fold (script sig : Bytes) (ops : List Model.Script.RawOp) :
+    ∀ (a : Model.Sighash.FadState) (b : Model.ScriptEval.FadAcc),
+      a.r = b.r → a.last = b.last → a.skip = b.skip →
+      let a' := ops.foldl (Model.Sighash.fadStep script sig) a
+      let b' := ops.foldl (Model.ScriptEval.fadStep script sig) b
+      a'.r = b'.r ∧ a'.last = b'.last ∧ a'.skip = b'.skip := by
+  induction ops with
+  | nil => intro a b h1 h2 h3; exact ⟨h1, h2, h3⟩
+  | cons o r ih =>
+    intro a b h1 h2 h3
+    simp only [List.foldl_cons]
+    apply ih
+    · simp only [Model.Sighash.fadStep, Model.ScriptEval.fadStep, Model.Sighash.pySlice,
+        Model.ScriptEval.slice, h1, h2, h3]
+    · rfl
+    · rfl
+
+theorem findAndDelete_models (cap : Model.ScriptEval.Captured) (script sig : Bytes) :
+    Model.ScriptEval.findAndDelete cap script sig =
+      match Model.Sighash.findAndDelete script sig with
+      | .ok r => .ok r
+      | .error _ => .error (.invalid cap) := by
+  unfold Model.ScriptEval.findAndDelete Model.Sighash.findAndDelete
+  have h := fad_fold script sig (Model.Script.rawIter script).1
+    { r := [], last := 0, skip := true } { r := [], last := 0, skip := true } rfl rfl rfl
+  simp only at h
+  obtain ⟨h1, h2, h3⟩ := h
+  dsimp only
+  cases hq : (Model.Script.rawIter script).2 with
+  | some e => rfl
+  | none => simp only [h1, h2, h3]
+
+/-! ### 6. script-number codec (C08's Spec.Script vs C06's Ref) -/
+
+theorem numDecode_eq_ref (b : Bytes) : Spec.Script.numDecode b = Spec.Script.Ref.scriptNumDecode b := by
+  unfold Spec.Script.numDecode Spec.Script.Ref.scriptNumDecode
+  rcases List.eq_nil_or_concat b with rfl | ⟨l, x, rfl⟩
+  · rfl
+  · simp
+
+theorem bitLength_same (n : Nat) : Model.ScriptEval.bitLength n = Model.Script.bitLength n := by
+  induction n using Nat.strongRecOn with
+  | _ n ih =>
+    rw [Model.ScriptEval.bitLength, Model.Script.bitLength]
+    by_cases h : n = 0
+    · simp [h]
+    · simp only [h, dite_false]
+      rw [ih (n / 2) (by omega)]
+
+theorem bnBytes_same (n : Nat) (e : Bool) : Model.ScriptEval.bnBytes n e = Model.Script.bnBytes n e := by
+  simp [Model.ScriptEval.bnBytes, Model.Script.bnBytes, bitLength_same]
+
+theorem leMinimal_byteLen (m : Nat) : Spec.Script.Ref.leMinimal m = leBytes (Spec.Script.byteLen m) m := by
+  rw [Model.ScriptEval.leMinimal_eq, bnBytes_same]
+  unfold Model.Script.bnBytes
+  simp only [Bool.false_eq_true, if_false, Nat.add_zero]
+  rw [bnBytes_eq]
+
+theorem u8_toNat_ofNat (n : Nat) (h : n < 256) : (UInt8.ofNat n).toNat = n := u8_ofNat_toNat n h
+
+/-- Core's `CScriptNum::serialize` in its two transcriptions -/
+theorem numEncode_eq_ref (z : Int) : Spec.Script.numEncode z = Spec.Script.Ref.scriptNumSer z := by
+  by_cases hz : z = 0
+  · subst hz; rw [numEncode_zero]; simp [Spec.Script.Ref.scriptNumSer]
+  have hm : z.natAbs ≠ 0 := by omega
+  generalize hmm : z.natAbs = m at hm
+  obtain ⟨b1, b2⟩ := byteLen_bounds m hm
+  have hpos : Spec.Script.byteLen m ≥ 1 := by rw [byteLen_pos hm]; omega
+  obtain ⟨j, hj⟩ : ∃ j, Spec.Script.byteLen m = j + 1 := ⟨Spec.Script.byteLen m - 1, by omega⟩
+  rw [hj] at b1 b2
+  simp only [Nat.add_sub_cancel] at b1
+  rw [pow256_succ] at b2
+  generalize hP : 256 ^ j = P at b1 b2
+  have hPpos : 0 < P := by rw [← hP]; exact pow256_pos j
+  -- the top byte
+  have htop_lt : m / P < 256 := (Nat.div_lt_iff_lt_mul hPpos).mpr (by omega)
+  have htop_pos : 1 ≤ m / P := (Nat.le_div_iff_mul_le hPpos).mpr (by omega)
+  have hres : Spec.Script.Ref.leMinimal m = leBytes j m ++ [UInt8.ofNat (m / P)] := by
+    rw [leMinimal_byteLen, hj, leBytes_succ_right, hP, Nat.mod_eq_of_lt htop_lt]
+  have hlast : (Spec.Script.Ref.leMinimal m).getLast? = some (UInt8.ofNat (m / P)) := by
+    rw [hres]; simp
+  have htn : (UInt8.ofNat (m / P)).toNat = m / P := u8_toNat_ofNat _ htop_lt
+  unfold Spec.Script.Ref.scriptNumSer
+  simp only [hz, if_false, hmm, hlast, htn]
+  rw [numEncode_def, hmm]
+  unfold numCode
+  rw [hmm]
+  by_cases hge : m / P ≥ 0x80
+  · -- a sign byte is appended
+    have hmge : 128 * P ≤ m := by
+      have := (Nat.le_div_iff_mul_le hPpos).mp hge; omega
+    have hnl : Spec.Script.numLen m = (j + 1) + 1 := by
+      apply numLen_eq
+      · rw [pow256_succ, hP]; omega
+      · rw [pow256_succ, hP]; omega
+    simp only [hge, if_true, hnl, Nat.add_sub_cancel]
+    rw [leBytes_succ_right, pow256_succ, hP, hres]
+    have e3 : leBytes (j + 1) m = leBytes j m ++ [UInt8.ofNat (m / P)] := by
+      rw [leBytes_succ_right, hP, Nat.mod_eq_of_lt htop_lt]
+    by_cases hneg : z < 0
+    · simp only [hneg, if_true, decide_true]
+      have e1 : leBytes (j + 1) (m + 128 * (256 * P)) = leBytes (j + 1) m := by
+        have := leBytes_add_mul (j + 1) m 128
+        rw [pow256_succ, hP] at this; exact this
+      have e2 : (m + 128 * (256 * P)) / (256 * P) = 128 := by
+        rw [Nat.add_mul_div_right _ _ (by omega), Nat.div_eq_of_lt (by omega)]
+      rw [e1, e2, e3]
+      rfl
+    · simp only [hneg, if_false, decide_false]
+      have hq : m / (256 * P) = 0 := Nat.div_eq_of_lt (by omega)
+      rw [hq, e3]
+      rfl
+  · -- the sign bit goes into the top byte
+    have hlt : m / P < 128 := by omega
+    have hmlt : m < 128 * P := by
+      have := (Nat.div_lt_iff_lt_mul hPpos).mp hlt; omega
+    have hnl : Spec.Script.numLen m = j + 1 := by
+      apply numLen_eq
+      · rw [hP]; omega
+      · rw [hP]; omega
+    simp only [hge, if_false, hnl, Nat.add_sub_cancel]
+    rw [leBytes_succ_right, hP, hres]
+    by_cases hneg : z < 0
+    · simp only [hneg, if_true, decide_true]
+      have e1 : leBytes j (m + 128 * P) = leBytes j m := by
+        have := leBytes_add_mul j m 128
+        rw [hP] at this; exact this
+      have e2 : (m + 128 * P) / P = m / P + 128 := Nat.add_mul_div_right _ _ hPpos
+      rw [e1, e2, Nat.mod_eq_of_lt (by omega)]
+      simp [List.dropLast_concat]
+    · simp only [hneg, if_false, decide_false]
+      rw [Nat.mod_eq_of_lt htop_lt]
+
 end BtcVerif.CoherenceProofs
